@@ -84,6 +84,7 @@ def _plan(tier, seed):
     shards.append({'kind': 'text', 'supply': 'placed', 'n': 800 if tier == 'quick' else 8000})
     shards.append({'kind': 'blank', 'supply': 'table'})
     shards.append({'kind': 'date', 'supply': 'datecall'})
+    shards.append({'kind': 'date', 'supply': 'datediff'})
     shards.append({'kind': 'date', 'supply': 'isodates', 'n': 2 if tier == 'quick' else 30})
     return shards
 
@@ -237,7 +238,10 @@ def run_placed(shard, ctx):
                 case = {'kind': kind, 'a': x, 'b': y, 'op': op, 'supply': how, 'formula': cells[cell]}
                 if kind == 'num':
                     r.count('exact_checks')
-                    exp = PYOP[op](Fraction(x), Fraction(y))
+                    # a literal (like a workbook cell) denotes the double nearest to its decimal text: 2^53+1 written out IS 2^53;
+                    # Python ints supplied through overrides stay exact (that is the override shard's business)
+                    fx, fy = ((float(x), float(y)) if how == 'literal' else (x, y))
+                    exp = PYOP[op](Fraction(fx), Fraction(fy))
                     if got is not exp:
                         report(r, ID, None, case, out.brief(), exp, monitor='exact-rational')
                 else:
@@ -393,6 +397,46 @@ def run_isodates(shard, ctx):
                 r.nt(('iso', b, addr, len(val)))
 
 
+def run_datediff(shard, ctx):
+    """the difference of two date-times is a NUMBER (of days, with the time of day as its fraction): compared with a number it obeys the
+    same exact law as any other number - down to the milliseconds a workbook cell keeps and the microseconds an override may carry"""
+    r, rng = ctx.r, ctx.rng
+    base = dt.datetime(2024, 3, 1, 8, 0, 0)
+    offsets = [dt.timedelta(0), dt.timedelta(microseconds=400000), dt.timedelta(milliseconds=1), dt.timedelta(seconds=1), dt.timedelta(hours=12),
+               dt.timedelta(hours=12, milliseconds=1), dt.timedelta(days=1), dt.timedelta(days=1, microseconds=500000), dt.timedelta(days=5),
+               dt.timedelta(hours=6), dt.timedelta(days=2, hours=18), -dt.timedelta(milliseconds=250), -dt.timedelta(days=1, hours=12), dt.timedelta(microseconds=1)]
+    numbers = [0, 0.5, 1, 0.25, 5, -1.5, 2.75, 1e-9, -0.25]
+    cells = {'A2': base, 'B2': base + dt.timedelta(hours=12), 'C2': 0.5}
+    forms = {}
+    for i, op in enumerate(OPS):
+        forms[f'E{i + 1}'] = f'=(B2-A2){op}C2'
+        forms[f'F{i + 1}'] = f'=C2{op}(B2-A2)'
+        forms[f'G{i + 1}'] = f'=B2-A2{op}C2'
+    cells.update(forms)
+    book = pipeline.Book(wbspec.spec(wbspec.sheet('S1', cells)), ctx.workdir, name='ddiff')
+    for td in offsets:
+        for c in numbers:
+            ov = [(0, 'B2', base + td), (0, 'C2', c)]
+            days = Fraction(td.days) + Fraction(td.seconds, 86400) + Fraction(td.microseconds, 86400 * 10 ** 6)
+            # the library turns the difference into the double nearest to the number of days: a comparison is decided unless the two
+            # sides are closer than that rounding
+            if days != Fraction(c) and abs(days - Fraction(c)) < Fraction(1, 10 ** 10):
+                continue
+            outs = book.values(0, list(forms), ov)
+            for (addr, f), out in zip(forms.items(), outs):
+                op = OPS[int(addr[1:]) - 1]
+                left_is_diff = addr[0] in 'EG'
+                exp = PYOP[op](days, Fraction(c)) if left_is_diff else PYOP[op](Fraction(c), days)
+                r.ev()
+                r.count('date_difference_checks')
+                got = _as_bool(out)
+                if td.microseconds:
+                    r.nt(('datediff', str(td), c, addr))
+                if got is not exp:
+                    report(r, ID, None, {'kind': 'datediff', 'formula': f, 'a': base, 'b': base + td, 'c': c, 'op': op}, out.brief(), exp, monitor='exact-rational')
+    r.sample({'date_differences': [str(o) for o in offsets[:6]], 'against': numbers})
+
+
 def run_shard(shard, ctx):
     if isinstance(shard, dict) and 'mixed' in shard:
         from ..mixed import run_mixed
@@ -405,6 +449,8 @@ def run_shard(shard, ctx):
             return run_isodates({'n': 2}, ctx)
         if c.get('kind') == 'datecall':
             return run_datecall({}, ctx)
+        if c.get('kind') == 'datediff':
+            return run_datediff({}, ctx)
         if c.get('kind') == 'blank':
             return run_blank({}, ctx)
         if c.get('supply') == 'override':
@@ -416,6 +462,8 @@ def run_shard(shard, ctx):
         run_placed(shard, ctx)
     elif shard['supply'] == 'datecall':
         run_datecall(shard, ctx)
+    elif shard['supply'] == 'datediff':
+        run_datediff(shard, ctx)
     else:
         run_blank(shard, ctx)
 
